@@ -10,7 +10,7 @@ import glob, json, os, subprocess, sys, time
 ENV = dict(os.environ, GOFLAGS="-mod=mod", GOPROXY="off")
 
 # seeded change -> the check(s) that decide it, where that is not the property it was seeded for
-OTHER_CHECK = {"C02-D": ["C14"]}
+OTHER_CHECK = {"C02-D": ["C14"], "C01-E": ["C14"]}
 
 
 def sh(cmd, cwd=None, timeout=4 * 3600):
